@@ -67,6 +67,8 @@ type Frame struct {
 type Options struct {
 	Safety      bool            // family S obligations
 	Exact       bool            // family I: integer ops on Exact types must not wrap
+	ExactCompare bool           // family I in predicates: every signed 64-bit chain is tracked and comparisons are uses
+	OperandsKept bool           // family O: math/big values that existed at entry are never the target of a mutating method
 	InlineDepth int             // max inline depth
 	InlineSize  int             // max instruction count of an inlined callee
 	Disabled    map[string]bool // Houdini candidates that were dropped
@@ -192,7 +194,7 @@ func (e *Exec) oblige(st *State, kind, anchor string, goal *Term, pos string, as
 	local := base
 	via := ""
 	owner := fn
-	if e.curIn != nil && e.curFr != nil && (strings.HasPrefix(kind, "safe:") || strings.HasPrefix(kind, "exact:") || strings.HasPrefix(kind, "fresh-recv") || strings.HasPrefix(kind, "frame:")) {
+	if e.curIn != nil && e.curFr != nil && (strings.HasPrefix(kind, "safe:") || strings.HasPrefix(kind, "exact:") || strings.HasPrefix(kind, "fresh-recv") || strings.HasPrefix(kind, "operand-kept") || strings.HasPrefix(kind, "frame:")) {
 		if n := e.P.staticOrdinal(e.curFr.fn, e.curIn, base); n > 1 {
 			local += fmt.Sprintf("#%d", n)
 		}
